@@ -280,6 +280,12 @@ def run(rep, tier):
         rep.call(rules, rep, prog)
         rep.call(inside, rep, prog, "C15.inside")
         rep.call(formulas.fit_formula, rep, prog, "C15.formula")
+        # "so the resize never fails with a cropping error": the fitted box is placed with
+        # left = fl(w - cw); it passes the validator because fl(left + cw) <= w is what the validator
+        # tests (the half-ulp of left is absorbed by the sum). A validator that compares the size
+        # with fl(w - left) instead rejects fitted boxes whose left was rounded up.
+        from ..engines import validators
+        rep.call(validators.crop_f64, rep, prog, "C15.validator-form")
         # integer arithmetic on the way to the fitted box must not wrap (a wrapped product in a
         # ratio test selects the wrong box in release builds and panics in debug builds)
         from . import c03
